@@ -318,3 +318,48 @@ impl UnstableBlocks {
 //@|     old(state).syncing_state.num_block_deserialize_errors < u64::MAX,
 //@|     old(state).syncing_state.num_insert_block_errors < u64::MAX,
 //@end
+
+// ---- C13: the phase order of one heartbeat (heartbeat.rs:20): ingestion first; fetching only if ingestion had nothing to do;
+// ---- processing (and the fee cache) only if no request was sent. The phases themselves are verified above; here each call is a
+// ---- stand-in that appends its name to a ghost trace (R7: `async fn` => `fn`, `.await` dropped, calls get the trace argument)
+struct PhaseTrace { log: Ghost<Seq<int>> }
+spec const PH_METRICS: int = 1;
+spec const PH_BURN: int = 2;
+spec const PH_INGEST: int = 3;
+spec const PH_FETCH: int = 4;
+spec const PH_PROCESS: int = 5;
+spec const PH_FEES: int = 6;
+uninterp spec fn ingest_outcome_spec() -> Slicing<(), bool>;
+uninterp spec fn fetch_outcome_spec() -> bool;
+#[verifier::external_body]
+fn vp_collect_metrics(t: &mut PhaseTrace) ensures final(t).log@ == old(t).log@.push(PH_METRICS) { unimplemented!() }
+#[verifier::external_body]
+fn vp_maybe_burn_cycles(t: &mut PhaseTrace) ensures final(t).log@ == old(t).log@.push(PH_BURN) { unimplemented!() }
+#[verifier::external_body]
+fn vp_ingest(t: &mut PhaseTrace) -> (r: Slicing<(), bool>) ensures final(t).log@ == old(t).log@.push(PH_INGEST), r == ingest_outcome_spec() { unimplemented!() }
+#[verifier::external_body]
+fn vp_maybe_fetch_blocks(t: &mut PhaseTrace) -> (r: bool) ensures final(t).log@ == old(t).log@.push(PH_FETCH), r == fetch_outcome_spec() { unimplemented!() }
+#[verifier::external_body]
+fn vp_maybe_process_response(t: &mut PhaseTrace) ensures final(t).log@ == old(t).log@.push(PH_PROCESS) { unimplemented!() }
+#[verifier::external_body]
+fn vp_maybe_compute_fee_percentiles(t: &mut PhaseTrace) ensures final(t).log@ == old(t).log@.push(PH_FEES) { unimplemented!() }
+//@extract file=canister/src/heartbeat.rs item="fn heartbeat" props=C13
+//@ sigrewrite R7 "async fn heartbeat\(\)" => "fn heartbeat(vp_tr: &mut PhaseTrace)"
+//@ rewrite R7 "collect_metrics\(\);" => "vp_collect_metrics(vp_tr);"
+//@ rewrite R7 "maybe_burn_cycles\(\);" => "vp_maybe_burn_cycles(vp_tr);"
+//@ rewrite R7 "match ingest_stable_blocks_into_utxoset\(\) \{" => "match vp_ingest(vp_tr) {"
+//@ rewrite R7 "maybe_fetch_blocks\(\)\.await" => "vp_maybe_fetch_blocks(vp_tr)"
+//@ rewrite R7 "maybe_process_response\(\);" => "vp_maybe_process_response(vp_tr);"
+//@ rewrite R7 "maybe_compute_fee_percentiles\(\);" => "vp_maybe_compute_fee_percentiles(vp_tr);"
+//@ spec
+//@| requires old(vp_tr).log@.len() == 0,
+//@| ensures
+//@|     final(vp_tr).log@ =~= (match ingest_outcome_spec() {
+//@|         // a paused or completed ingestion ends the round
+//@|         Slicing::Paused(()) => seq![PH_METRICS, PH_BURN, PH_INGEST],
+//@|         Slicing::Done(true) => seq![PH_METRICS, PH_BURN, PH_INGEST],
+//@|         // nothing ingested: fetch; a sent request ends the round; otherwise the stored reply is processed, then the fee cache
+//@|         Slicing::Done(false) => if fetch_outcome_spec() { seq![PH_METRICS, PH_BURN, PH_INGEST, PH_FETCH] }
+//@|                                 else { seq![PH_METRICS, PH_BURN, PH_INGEST, PH_FETCH, PH_PROCESS, PH_FEES] },
+//@|     }),
+//@end
